@@ -439,6 +439,58 @@ def ill_conditioned_gn(ck, rng):
             ck.mark("solve/ill-conditioned-float64")
 
 
+class _Curved(nn.Module):
+    """r(theta) = atan(M (theta - c)): rejections and mediocre steps occur, so the damping moves."""
+
+    def __init__(self, M, c, theta0):
+        super().__init__()
+        self.M, self.c = M, c
+        self.theta = nn.Parameter(theta0.clone())
+
+    def forward(self, input=None):
+        return torch.atan(self.M @ (self.theta - self.c))
+
+
+def shared_objects(ck, rng):
+    """Two optimisers used alternately that were handed the SAME strategy / solver / kernel objects behave exactly like two optimisers
+    with objects of their own (the damping history lives with each optimiser, not with the strategy object)."""
+    for sname in ("Adaptive", "TrustRegion"):
+        for rep in range(3):
+            probs = []
+            for _ in range(2):
+                n = int(rng.integers(2, 4))
+                probs.append((torch.as_tensor(rng.standard_normal((n + 1, n)) * float(rng.choice([0.5, 3.0]))), torch.as_tensor(rng.standard_normal(n)),
+                              torch.as_tensor(rng.standard_normal(n) * 3.0)))
+            mk = {"Adaptive": lambda: pp.optim.strategy.Adaptive(damping=0.5), "TrustRegion": lambda: pp.optim.strategy.TrustRegion(radius=2.0)}[sname]
+
+            def run(shared):
+                st_ = mk()
+                sol_, ker_ = pp.optim.solver.PINV(), pp.optim.kernel.Huber(2.0)
+                models = [_Curved(*p_) for p_ in probs]
+                opts = []
+                for m_ in models:
+                    if shared:
+                        opts.append(pp.optim.LM(m_, solver=sol_, strategy=st_, kernel=ker_, reject=4))
+                    else:
+                        opts.append(pp.optim.LM(m_, solver=pp.optim.solver.PINV(), strategy=mk(), kernel=pp.optim.kernel.Huber(2.0), reject=4))
+                hist = []
+                for step in range(6):
+                    for o_, m_ in zip(opts, models):
+                        o_.step(None)
+                        hist.append((m_.theta.detach().clone(), float(o_.param_groups[0]["damping"])))
+                return hist
+            regime = f"LM/shared-objects/{sname}"
+            ok1, h_sh = ck.call("system", regime, "optim.LevenbergMarquardt.step", lambda: run(True), witness={"strategy": sname})
+            ok2, h_own = ck.call("system", regime, "optim.LevenbergMarquardt.step", lambda: run(False), witness={"strategy": sname})
+            ck.count("system", regime, key=(sname, rep))
+            if ok1 and ok2:
+                bad = [i for i, (a, b) in enumerate(zip(h_sh, h_own)) if not (torch.equal(a[0], b[0]) and a[1] == b[1])]
+                ck.check(not bad, "system", regime, "optim.LevenbergMarquardt.step", "optimisers_sharing_a_strategy_object_influence_each_other",
+                         lambda: {"strategy": sname, "first_difference_at_call": bad[0], "damping_shared": [h[1] for h in h_sh][:8],
+                                  "damping_own": [h[1] for h in h_own][:8]})
+                ck.mark("system/shared-strategy-object")
+
+
 def clamp_floor(ck, rng):
     """LM's lower clamp of the Hessian diagonal is the user's `min`, in both dtypes: r = (theta0 - 1, s (theta1 - 1)) has the diagonal
     (1, s^2); with s^2 < min the second entry handed to the solver in trial k is min (1 + lambda)^k."""
@@ -475,6 +527,8 @@ def run(ck):
     if ck.shard == 0:
         ill_conditioned_gn(ck, ck.rng("ill"))
         clamp_floor(ck, ck.rng("floor"))
+        shared_objects(ck, ck.rng("shared"))
+        ck.require("system/shared-strategy-object")
         ck.require("solve/ill-conditioned-float64")
     templates = ["pose_log", "points", "alg_log", "mixed_so3_offset", "two_outputs", "three_params", "program", "frozen", "alias_output"]
     for i in range(n):
